@@ -165,6 +165,40 @@ func c09Normalise(m ref.Splice) ref.Splice {
 	return m
 }
 
+// c09KeepOrder is the other admissible serialisation order: descriptors exactly where the model has them
+// (the library's own normal form moves foreign descriptors to the front; "descriptors in order with foreign
+// descriptors preserved" does not prescribe that).
+func c09KeepOrder(m ref.Splice) ref.Splice {
+	ds := make([]ref.SpliceDesc, len(m.Descs))
+	copy(ds, m.Descs)
+	for i := range ds {
+		if !ds[i].Foreign && ds[i].Type != 0x34 && ds[i].Type != 0x36 {
+			ds[i].HasSub = false
+		}
+	}
+	m.Descs = ds
+	m.UnknownLen = false
+	return m
+}
+
+// c09Comparable blanks what the comparison must not depend on: the alignment stuffing byte values and, for a
+// command that carries no time, pts_adjustment (the API has no setter for it; it is derived from the signal and
+// command times, and which value results when the command time is not on the wire is not stated) together with
+// the CRC_32 that covers it (the CRC is verified on its own).
+func c09Comparable(b []byte, from, to int, timeless bool) []byte {
+	c := maskStuffing(b, from, to)
+	if timeless && len(c) >= 13 {
+		c[4] &^= 0x01
+		for i := 5; i <= 8; i++ {
+			c[i] = 0
+		}
+		for i := len(c) - 4; i < len(c); i++ {
+			c[i] = 0
+		}
+	}
+	return c
+}
+
 type c09State struct {
 	m        ref.Splice
 	adjusted uint64 // the signal's adjusted PTS as stored by the library
@@ -409,7 +443,9 @@ func c09Apply(st *c09State, mu MutC09) string {
 	case 26:
 		d.SetTypeID(scte35.SegDescType(mu.V))
 		md.Type = byte(mu.V)
-		// undocumented interaction with the sub-segment flag: re-set it explicitly
+		// sub-segment fields exist for types 0x34 and 0x36 only: the flag is kept in step with the type
+		// (what a set flag means on another type is not stated), and re-set explicitly after SetTypeID
+		md.HasSub = md.HasSub && (md.Type == 0x34 || md.Type == 0x36)
 		d.SetHasSubSegments(md.HasSub)
 	case 27:
 		d.SetSegmentNumber(uint8(mu.V))
@@ -418,8 +454,8 @@ func c09Apply(st *c09State, mu MutC09) string {
 		d.SetSegmentsExpected(uint8(mu.V))
 		md.Expected = uint8(mu.V)
 	case 29:
-		d.SetHasSubSegments(mu.B)
-		md.HasSub = mu.B
+		md.HasSub = mu.B && (md.Type == 0x34 || md.Type == 0x36)
+		d.SetHasSubSegments(md.HasSub)
 	case 30:
 		d.SetSubSegmentNumber(uint8(mu.V))
 		md.SubNum = uint8(mu.V)
@@ -617,7 +653,7 @@ func checkC09(c CaseC09, x *hx.Ctx) *hx.Failure {
 		st.m = apiExpressible(c.Splice)
 		st.sig = buildSpliceAPIAlloc(&st.m, c.Noise, st.window)
 		st.adjusted = (st.cmdPTSField() + st.m.Adj) & m33
-		if st.sig.Data() != nil {
+		if len(st.sig.Data()) != 0 {
 			return hx.Failf("data-before-update", "Data() of a freshly created signal is not empty before UpdateData()")
 		}
 	case "decoded":
@@ -633,6 +669,10 @@ func checkC09(c CaseC09, x *hx.Ctx) *hx.Failure {
 		in = append(in, bytes.Repeat([]byte{0xFF}, c.Tail)...)
 		s, err := scte35.NewSCTE35(in)
 		if err != nil {
+			if c.BadCRC > 0 {
+				x.Label("stale-crc-input-refused")
+				return nil // a decoder may verify CRC_32; only what it accepts must be re-emitted correctly
+			}
 			return hx.Failf("decode-error", "NewSCTE35 failed on a well-formed section: %v\n section %x", err, sec)
 		}
 		sec = in[1:]
@@ -643,14 +683,16 @@ func checkC09(c CaseC09, x *hx.Ctx) *hx.Failure {
 			cp = 0
 		}
 		st.adjusted = (cp + c.Splice.Adj) & m33
-		before = clone(sec)
+		before = clone(st.sig.Data()) // whatever the raw-data accessor shows after decoding: it must not change until the next encoding
 		if len(c.Muts) == 0 {
 			// re-encoding a decoded canonical section reproduces it byte for byte
 			re := st.sig.UpdateData()
 			nm := c09Normalise(c.Splice)
 			nm.Stuffing = 0
 			want := nm.Encode()
-			if !bytes.Equal(re, want) {
+			ko := c09KeepOrder(c.Splice)
+			ko.Stuffing = 0
+			if !bytes.Equal(re, want) && !bytes.Equal(re, ko.Encode()) {
 				return hx.Failf("reencode", "re-encoding the decoded section differs from its canonical form at byte %d (canonical input: %v)\n input %x\n want  %x\n got   %x", firstDiff(re, want), c.Splice.Canonical(), sec, want, re)
 			}
 		}
@@ -716,7 +758,11 @@ func c09VerifyEncoding(st *c09State, c CaseC09, what string) *hx.Failure {
 	want := em.Encode()
 	got := st.sig.UpdateData()
 	from, to := em.StuffingRange()
-	if !bytes.Equal(maskStuffing(got, from, to), maskStuffing(want, from, to)) {
+	carries, _ := em.CarriesTime()
+	ko := c09KeepOrder(st.m)
+	ko.Adj = em.Adj
+	if !bytes.Equal(c09Comparable(got, from, to, !carries), c09Comparable(want, from, to, !carries)) &&
+		!bytes.Equal(c09Comparable(got, from, to, !carries), c09Comparable(ko.Encode(), from, to, !carries)) {
 		return hx.Failf("encode", "UpdateData() differs from the canonical section of the field values at byte %d (%s)\n want %x\n got  %x", firstDiff(got, want), what, want, got)
 	}
 	// independent structural facts
@@ -774,7 +820,7 @@ func c09VerifyEncoding(st *c09State, c CaseC09, what string) *hx.Failure {
 	if st.sig.Tier() != em.Tier {
 		return hx.Failf("getter-tier", "Tier() = %#x, want %#x (%s)", st.sig.Tier(), em.Tier, what)
 	}
-	if u33(st.sig.PTS()) != st.adjusted {
+	if carries && u33(st.sig.PTS()) != st.adjusted {
 		return hx.Failf("getter-pts", "PTS() = %d, want the adjusted PTS %d (%s)", u33(st.sig.PTS()), st.adjusted, what)
 	}
 	// decoding the encoded bytes reports the same field values
